@@ -43,9 +43,16 @@ def run_one(engine, plan, scratch):
     """Execute + judge one plan.  Returns (history, violations).
     Engines whose subject is state that leaks inside the interpreter (ISOLATE = True) run every plan in a forked
     child, so that one plan can never contaminate the next and every violation replays in a fresh interpreter."""
-    if getattr(engine, 'ISOLATE', False):
+    if isolated(engine):
         return _run_one_forked(engine, plan, scratch)
     return _run_one_here(engine, plan, scratch)
+
+
+ORIG_ENV = dict(os.environ)  # the caller's environment (os.environ itself is replaced by the fixed one)
+
+
+def isolated(engine) -> bool:
+    return bool(getattr(engine, 'ISOLATE', False)) or ORIG_ENV.get('VERIF_ISOLATE') == '1'
 
 
 def _run_one_here(engine, plan, scratch):
@@ -259,7 +266,7 @@ def _short(x, n=300):
 
 def confirm_fresh(prop, path, repo_dir):
     """Re-execute the replay file in a fresh interpreter; True iff the same rule fails again."""
-    env = dict(os.environ)
+    env = dict(ORIG_ENV)
     env['PYTHONPATH'] = VERIF
     env['PYTHONDONTWRITEBYTECODE'] = '1'
     env['VERIF_REPO'] = repo_dir
@@ -312,7 +319,7 @@ def _main(a, prop, repo_dir, scratch_base, t0):
     world_mod.install_fixed_environ()
     host.bootstrap(repo_dir)
     engine = load_engine(prop)
-    if getattr(engine, 'ISOLATE', False):
+    if isolated(engine):
         _preimport()
     if a.replay:
         ok, history, violations = replay(engine, a.replay, scratch_base)
@@ -334,7 +341,7 @@ def _main(a, prop, repo_dir, scratch_base, t0):
     }
     first_seed = last_seed = None
     ctx = multiprocessing.get_context('fork')
-    batch_limit = int(os.environ.get('VERIF_BATCH_WALL') or (900 if a.tier == 'quick' else 7200))
+    batch_limit = int(ORIG_ENV.get('VERIF_BATCH_WALL') or (900 if a.tier == 'quick' else 7200))
     with concurrent.futures.ProcessPoolExecutor(max_workers=a.jobs, mp_context=ctx, initializer=_worker_init,
                                                 initargs=(repo_dir, scratch_base)) as pool:
         futs = [pool.submit(_work_chunk, c) for c in chunks]
@@ -409,7 +416,7 @@ def _main(a, prop, repo_dir, scratch_base, t0):
                 h, vs = run_one(engine, p, scratch_base)
                 return any(v['rule'] == rule and match_known(engine, p, h, v, findings) is None for v in vs)
 
-            plan, used = shrink_mod.shrink(plan, fails_same, budget=int(os.environ.get('VERIF_SHRINK_BUDGET') or 300),
+            plan, used = shrink_mod.shrink(plan, fails_same, budget=int(ORIG_ENV.get('VERIF_SHRINK_BUDGET') or 300),
                                            normalize=getattr(engine, 'normalize', None))
             h, vs = run_one(engine, plan, scratch_base)
             vv = [v for v in vs if v['rule'] == rule]
@@ -473,6 +480,19 @@ def _main(a, prop, repo_dir, scratch_base, t0):
     print('%s %s: runs=%d distinct_nontrivial=%d distinct_histories=%d sim_seconds=%.1f wall=%.1fs violations=%d known=%d dod=%s'
           % (prop, a.tier, agg['n'], len(agg['sigs']), len(agg['hist']), agg['sim_seconds'], wall, n_viol,
              len(known_hit), dod[:16]))
+    if harness_nonrepro and not isolated(engine) and not a.digest_only:
+        # A violation seen in a worker that does not fail in a fresh interpreter: some state inside the interpreter
+        # outlived the plan that set it, so plans that share a worker are no longer independent executions.  The
+        # whole batch is repeated in a fresh process with every plan in a forked child of a worker that itself never
+        # executes a plan; what that pass reports is the answer.
+        print('NOTE interpreter-global state leaked from one plan into another; repeating the batch with every plan '
+              'in a forked child (VERIF_ISOLATE=1)')
+        sys.stdout.flush()
+        import subprocess
+        env = dict(ORIG_ENV, VERIF_ISOLATE='1', PYTHONPATH=VERIF, PYTHONDONTWRITEBYTECODE='1', VERIF_REPO=repo_dir)
+        env.setdefault('PYTHONHASHSEED', '0')
+        return subprocess.call([sys.executable, '-W', 'ignore', '-c', 'from sim.runner import main; main()']
+                               + sys.argv[1:], env=env, cwd=VERIF)
     if harness_nonrepro:
         return EXIT_HARNESS
     return EXIT_VIOLATION if n_viol else EXIT_OK
